@@ -11,7 +11,7 @@ items="$@"
 for it in $items; do
   n=${it%%:*}
   if [ "$n" = "$it" ]; then
-    ps=$(python3 -c "import json;print(' '.join(json.load(open('seeded/$n/meta.json')).get('checks',[])))")
+    ps=$(python3 -c "import json;m=json.load(open('seeded/$n/meta.json'));print(' '.join(m.get('checks') or [m['property']]))")
   else
     ps=${it#*:}; ps=${ps//,/ }
   fi
